@@ -214,13 +214,17 @@ func reshape(v reflect.Value, next func(n int) int, depth int) int {
 			return n
 		}
 		// map values are not addressable: reshape a copy and store it back
-		it := v.MapRange()
+		// in a fixed order: the draws must not depend on Go's map iteration order
 		var keys, vals []reflect.Value
-		for it.Next() {
+		for _, k := range sortedKeys(v) {
+			old := v.MapIndex(k)
+			if !old.IsValid() {
+				continue // a key that is not equal to itself (NaN)
+			}
 			e := reflect.New(t.Elem()).Elem()
-			e.Set(it.Value())
+			e.Set(old)
 			if c := reshape(e, next, depth+1); c > 0 {
-				keys = append(keys, it.Key())
+				keys = append(keys, k)
 				vals = append(vals, e)
 				n += c
 			}
@@ -249,4 +253,86 @@ func fillStale(s reflect.Value, next func(n int) int) {
 			e.SetString(freshString("stale-" + string(rune('a'+next(26)))))
 		}
 	}
+}
+
+// Overlaps reports whether any memory the value owns - the backing array of a
+// slice up to its capacity (also of an empty one), the bytes of a string, the
+// target of a pointer - lies inside [lo, hi). It is the direct form of "shares
+// no memory with": no content needs to change for it to show.
+func Overlaps(v reflect.Value, lo, hi uintptr) (bool, string) {
+	return overlaps(v, lo, hi, "", 0)
+}
+
+func within(p, n, lo, hi uintptr) bool {
+	return n > 0 && p < hi && p+n > lo
+}
+
+func overlaps(v reflect.Value, lo, hi uintptr, path string, depth int) (bool, string) {
+	if depth > 200 || !v.IsValid() {
+		return false, ""
+	}
+	t := v.Type()
+	if t == tTime {
+		return false, ""
+	}
+	switch t.Kind() {
+	case reflect.String:
+		s := v.String()
+		h := (*[2]uintptr)(unsafe.Pointer(&s))
+		if within(h[0], h[1], lo, hi) {
+			return true, path + ": the string's bytes"
+		}
+	case reflect.Ptr:
+		if v.IsNil() {
+			return false, ""
+		}
+		if within(v.Pointer(), t.Elem().Size(), lo, hi) {
+			return true, path + ": the pointer's target"
+		}
+		return overlaps(v.Elem(), lo, hi, path+"*", depth+1)
+	case reflect.Interface:
+		if !v.IsNil() {
+			return overlaps(v.Elem(), lo, hi, path, depth+1)
+		}
+	case reflect.Struct:
+		for i := 0; i < t.NumField(); i++ {
+			if t.Field(i).PkgPath != "" {
+				continue
+			}
+			if ok, p := overlaps(v.Field(i), lo, hi, path+"."+t.Field(i).Name, depth+1); ok {
+				return true, p
+			}
+		}
+	case reflect.Slice:
+		if v.IsNil() {
+			return false, ""
+		}
+		if within(v.Pointer(), uintptr(v.Cap())*t.Elem().Size(), lo, hi) {
+			return true, fmt.Sprintf("%s: the slice's backing array (len %d, cap %d)", path, v.Len(), v.Cap())
+		}
+		if k := t.Elem().Kind(); k == reflect.String || k == reflect.Slice || k == reflect.Ptr || k == reflect.Struct || k == reflect.Interface || k == reflect.Map || k == reflect.Array {
+			for i := 0; i < v.Len(); i++ {
+				if ok, p := overlaps(v.Index(i), lo, hi, fmt.Sprintf("%s[%d]", path, i), depth+1); ok {
+					return true, p
+				}
+			}
+		}
+	case reflect.Array:
+		for i := 0; i < v.Len(); i++ {
+			if ok, p := overlaps(v.Index(i), lo, hi, fmt.Sprintf("%s[%d]", path, i), depth+1); ok {
+				return true, p
+			}
+		}
+	case reflect.Map:
+		it := v.MapRange()
+		for it.Next() {
+			if ok, p := overlaps(it.Key(), lo, hi, path+"[key]", depth+1); ok {
+				return true, p
+			}
+			if ok, p := overlaps(it.Value(), lo, hi, fmt.Sprintf("%s[%v]", path, trunc(fmt.Sprint(it.Key()))), depth+1); ok {
+				return true, p
+			}
+		}
+	}
+	return false, ""
 }
